@@ -81,6 +81,7 @@ PROPS["C13"] = dict(
         run("threads-reuse", "c13_rc", "log_threads", "rc", dict(procs=1, cases=600), dict(procs=2, cases=6000),
             deterministic=False, env=NOQUARANTINE),
         # f5_witness is only ever replayed (known/C13/F5.json); it has no search budget
+        run("logger-lifetime", "c13_rc", "logger_lifetime", "rc", dict(procs=3, cases=400), dict(procs=6, cases=4000)),
         run("f5-witness", "c13_rc", "f5_witness", "rc", None, None),
         # fixed witness of finding C13-eventid-noname (fixed; regression replay replays/C13/C13-eventid-noname.json);
         # replay only, no search budget
